@@ -44,25 +44,27 @@ def _act(kind, owner, behaviour):
 '''
 
 
-def class_src(name, place, beh, members):
+def class_src(name, place, beh, members, inherit=False):
     deco_c = f"@func_adl_callback(_act('class', '{name}', '{beh}'))\n" if place in ("class", "both") else ""
     deco_m = f"    @func_adl_callback(_act('method', '{name}', '{beh}'))\n" if place in ("method", "both") else ""
-    s = f"{deco_c}class {name}:\n"
-    s += f"{deco_m}    def tgt(self, p: int, q: int = 5) -> float: ...\n"
-    s += "    def other(self) -> float: ...\n"
+    body = f"{deco_m}    def tgt(self, p: int, q: int = 5) -> float: ...\n"
+    body += "    def other(self) -> float: ...\n"
     if place == "prop":
-        s += f"    @func_adl_parameterized_call(_act('prop', '{name}', '{beh}'))\n    @property\n" \
-             f"    def par(self): ...\n"
+        body += f"    @func_adl_parameterized_call(_act('prop', '{name}', '{beh}'))\n    @property\n" \
+                f"    def par(self): ...\n"
     for m in members:
-        s += f"    {m}\n"
-    return s
+        body += f"    {m}\n"
+    if inherit:
+        # the methods live on an undecorated base class; the class-level callback is on the subclass
+        return f"class {name}Base:\n{body}{deco_c}class {name}({name}Base):\n    pass\n"
+    return f"{deco_c}class {name}:\n{body}"
 
 
-def build(place, beh):
+def build(place, beh, inherit=False):
     src = MODEL_SRC
-    src += class_src("Trk", place, beh, [])
-    src += class_src("Jet", place, beh, ["def trks(self) -> Iterable[Trk]: ...", "def pt(self) -> float: ..."])
-    src += class_src("Ev", place, beh, ["def jets(self) -> Iterable[Jet]: ...", "def a(self) -> float: ..."])
+    src += class_src("Trk", place, beh, [], inherit)
+    src += class_src("Jet", place, beh, ["def trks(self) -> Iterable[Trk]: ...", "def pt(self) -> float: ..."], inherit)
+    src += class_src("Ev", place, beh, ["def jets(self) -> Iterable[Jet]: ...", "def a(self) -> float: ..."], inherit)
     if place == "func":
         src += f"@func_adl_callable(_act('func', 'fn', '{beh}'))\ndef fn(x: float, k: int = 3) -> float: ...\n"
     mod = types.ModuleType("fadlmc_c09_model")
@@ -102,7 +104,7 @@ class C09(Check):
             "rename the call, append an argument, replace an argument, MetaData + rename) x every call-site shape "
             "(depth 1..3 inside Select / Where of typed collections, one or two sites per lambda, sites at two depths, "
             "no site at all) x stream operator Select / Where / SelectMany, on a fresh and on an already derived "
-            "parent stream. Oracle: a reference walk of the user's lambda lists the call sites; every site must "
+            "parent stream, with the methods defined on the decorated class or inherited from an undecorated base. Oracle: a reference walk of the user's lambda lists the call sites; every site must "
             "produce a callback invocation, class-level before method-level, no invocation for anything that is not a "
             "site; every dictionary a callback attached must be on the args[0] chain below the new operator node and "
             "nothing else may be added there; the emitted call site must be what the callbacks returned. "
@@ -120,7 +122,7 @@ class C09(Check):
                 for beh in BEHAVIOURS:
                     for site in SITES:
                         for op in site[3]:
-                            for parent in ("root", "derived"):
+                            for parent in ("root", "derived", "root+inherit"):
                                 out.append((place, beh, site[0], op, parent))
             return out
         return [Space("configurations", {"places": PLACES, "behaviours": BEHAVIOURS, "sites": [s[0] for s in SITES]},
@@ -131,7 +133,7 @@ class C09(Check):
 
         place, beh, sname, op, parent = payload
         bind.reset_type_registries()
-        g = build(place, beh)
+        g = build(place, beh, parent.endswith("+inherit"))
         site = next(s for s in SITES if s[0] == sname)
         calls = [call_text(place, var, arg) for (_, var, arg) in site[2]]
         body = site[1].format(c1=calls[0] if calls else "", c2=calls[1] if len(calls) > 1 else "")
